@@ -157,6 +157,72 @@ func inspectAll(root ast.Node, useWalk bool) *visitRec {
 	return vr
 }
 
+// c14Prune checks the documented pruning contract of the traversal API: returning false for a node skips that node's
+// children and nothing else. The reference is a plain recursion over Children().
+func c14Prune(a *ChildArgs, tree *ast.AST, sql string) {
+	isNil := func(n ast.Node) bool {
+		if n == nil {
+			return true
+		}
+		rv := reflect.ValueOf(n)
+		return rv.Kind() == reflect.Ptr && rv.IsNil()
+	}
+	// number of nodes of an unpruned reference walk
+	total := 0
+	var count func(n ast.Node)
+	count = func(n ast.Node) {
+		if isNil(n) {
+			return
+		}
+		total++
+		for _, c := range n.Children() {
+			count(c)
+		}
+	}
+	count(tree)
+	if total < 3 {
+		return
+	}
+	for _, k := range []int{1, 2, total / 3, total / 2, total - 2} {
+		if k < 1 || k >= total {
+			continue
+		}
+		// reference: visit order with the k-th visited node pruned
+		var ref []string
+		seen := 0
+		var walk func(n ast.Node)
+		walk = func(n ast.Node) {
+			if isNil(n) {
+				return
+			}
+			seen++
+			ref = append(ref, fmt.Sprintf("%T", n))
+			if seen == k {
+				return
+			}
+			for _, c := range n.Children() {
+				walk(c)
+			}
+		}
+		walk(tree)
+		var got []string
+		seenI := 0
+		ast.Inspect(tree, func(n ast.Node) bool {
+			if isNil(n) {
+				return false
+			}
+			seenI++
+			got = append(got, fmt.Sprintf("%T", n))
+			return seenI != k
+		})
+		a.Rec.Count("evaluations", 1)
+		if strings.Join(got, ",") != strings.Join(ref, ",") {
+			a.Rec.Viol("C14/prune/inspect-differs", "pruning one node skips exactly that node's children", fmt.Sprintf("callback returns false at visited node %d of %d: Inspect visits %d nodes, a Children() recursion with the same pruning visits %d", k, total, len(got), len(ref)), map[string]interface{}{"sql": trunc(sql, 400), "k": k})
+			return
+		}
+	}
+}
+
 func c14Tree(a *ChildArgs, sql string) {
 	tree, err := gosqlx.Parse(sql)
 	if err != nil {
@@ -165,6 +231,7 @@ func c14Tree(a *ChildArgs, sql string) {
 	}
 	a.Rec.Count("evaluations", 1)
 	a.Rec.Distinct("cases", "tree:"+sql)
+	c14Prune(a, tree, sql)
 	vis := inspectAll(tree, false)
 	reach := collectReachable(tree, func(r reachNode) bool {
 		if r.IsPtr {
